@@ -11,6 +11,7 @@ VARIANTS = {
     "dbgassert": ["debug-glam-assert"],
     "feat": FEAT,
     "scalar_feat": FEAT + ["scalar-math"],
+    "feat_assert": FEAT + ["glam-assert"],
     "core": ["core-simd"],
     "core_assert": ["core-simd", "glam-assert"],
     "core_feat": FEAT + ["core-simd"],
